@@ -1,7 +1,8 @@
 chk("C02", "static analysis: MIR gated-path decision tables vs std slice-indexing views",
     "For each of the 14 getters/splitters (+_mut twins), get/get_mut, try_into_array{,_mut}, as_chunks/as_rchunks the gated "
     "paths of the MIR (callees inlined down to from_raw_parts) are compared with std's definition as (offset,count) views for "
-    "every order type of (len,start,end): symbolic in all lengths, indices and element types, so it covers the inputs tests "
+    "every order type of (len,start,end); first_mut/last_mut/split_first_mut/split_last_mut are None on an empty slice and the "
+    "first/last element (with the rest) otherwise: symbolic in all lengths, indices and element types, so it covers the inputs tests "
     "cannot enumerate. Any change of offset, count, guard direction, fallback or argument order is a mismatch.",
     "Trusted: rustc MIR construction; the models of len/overflowing_sub/as_ptr/offset/from_raw_parts; the arithmetic fact "
     "(len/N)*N <= len and len%N <= len for the chunk functions.")
@@ -20,7 +21,8 @@ chk("C13", "static analysis: slice-provenance (cut kind) vs offset-update typest
     "performed and the direction set (a Parser value the analysis cannot recognise is itself a violation); methods written in "
     "terms of a looping Parser method (skip, skip_back) compose with the law that method's own row establishes; errors must be "
     "built from the pre-operation parser; ParseError::new/other_error/offset "
-    "and the accessors are decided as tables. Symbolic in the string and in the operation history (induction), which tests "
+    "and the accessors are decided as tables; parse_direction/len/into_error/into_other_error and ParseError::{error_direction,kind,"
+    "copy} return the named field / call / field-wise copy. Symbolic in the string and in the operation history (induction), which tests "
     "cannot enumerate.",
     "Trusted: rustc MIR; loops are abstracted (loop-modified locals become fresh symbols, others keep their pre-loop value); "
     "`skip` relies on its count being <= len (loop bound not proved). Char-boundary clause rests on C01/C03.")
@@ -86,13 +88,15 @@ chk("C09", "static analysis: per-type MIR step tables, one-step iterator decisio
     "Trusted: rustc MIR. History equivalence follows from the one-step relation by the simulation "
     "exhausted <=> (start,end)=(MAX,MIN) (written, DESIGN.md App. C); chr::from_u32 on the produced scalars is C07.")
 chk("C07", "static analysis: exact value sets, bit-provenance abstract interpretation, one-step MIR decision tables",
-    "from_u32's accepted set is computed exactly from its branch conditions and must be the Unicode scalar values with the "
-    "payload being that same value; for each UTF-8 length class the encoder's arm range must be std's and every output byte "
+    "from_u32's accepted set is computed exactly from its branch conditions (interval sets propagated backward through xor/and/or/"
+    "shift/wrapping add-sub with constants; no enumeration, no solver) and must be the Unicode scalar values with the "
+    "payload being that same value, with no panicking input; for each UTF-8 length class the encoder's arm range must be std's and every output byte "
     "must be marker bits | the right payload bits of the scalar (bit provenance through shifts/masks/casts); the decoder "
     "string_to_usv composed with the encoder must be the identity on the scalar's bits for each length; the next/next_back "
     "of Chars/CharIndices (and the R* twins by isomorphism) are one-step tables (item, remainder, byte offsets) with the "
     "boundary search opaque, and the two boundary searches are checked as one-iteration relations (move by one, stop on the "
-    "forgiving boundary predicate decided in C03). Covers every char/u32 and all strings symbolically.",
+    "forgiving boundary predicate decided in C03); copy() of the four iterators is a field-wise copy and rev() the other "
+    "direction's type with the same fields. Covers every char/u32 and all strings symbolically.",
     "Trusted: rustc MIR; char <= 10FFFF type invariant. The boundary-search loops are decided as one-iteration relations only.")
 chk("C06", "static analysis: one-step MIR transition tables vs std's SplitInternal step, forward/reverse isomorphism",
     "Split::next/next_back, SplitTerminator::next and RSplitTerminator::next are compared as one-step transition tables over "
@@ -101,7 +105,7 @@ chk("C06", "static analysis: one-step MIR transition tables vs std's SplitIntern
     "mirrored rule for rsplit_terminator); RSplit must be Split stepping from the other end; constructors are a decision table over (delimiter empty, input "
     "empty): Empty(Start) exactly for an empty delimiter, else Normal with the normalised pattern (or, for an empty input, the state "
     "that takes the same single step); rsplit = split.rev(), rsplit_terminator copies split_terminator's fields, "
-    "remainder() returns the remainder field. Symbolic in string and delimiter.",
+    "remainder() returns the remainder field, copy() is a field-wise copy. Symbolic in string and delimiter.",
     "Trusted: rustc MIR; find/rfind return Some only when the needle fits in the haystack (C04). The sequence of pieces follows from the one-step tables by the simulation argument in DESIGN.md "
     "App. D (not mechanised); find/rfind are C04, the boundary search is C07.")
 chk("C08", "static analysis: one-step MIR decision tables over (offset,count) views vs std's slice-iterator steps, forward/reverse isomorphism",
@@ -111,7 +115,8 @@ chk("C08", "static analysis: one-step MIR decision tables over (offset,count) vi
     "the two div/mod back steps (Chunks::next_back, RChunks::next_back) are accepted only as the listed idioms with the "
     "right item/remainder parts; all 8 *Rev types must be the forward types stepping from the other end, rev()/copy() "
     "keep the fields; constructors assert size != 0 and pre-split the exact variants at len - len%size / len%size; "
-    "remainder/as_slice accessors. Symbolic in slice length, size and element type.",
+    "remainder/as_slice accessors of forward and reversed types, iter/iter_copied and the four slice const_into_iter impls build the "
+    "iterator over the given slice. Symbolic in slice length, size and element type.",
     "Trusted: rustc MIR; arithmetic facts a-b<=a, (a-b==0 <=> a==b), a%b<b. The div/mod split points are matched against an "
     "idiom list (an equivalent rewrite in a new idiom is reported as unrecognised). Histories follow by the simulation "
     "argument over one-step tables (DESIGN.md App. E).")
@@ -165,7 +170,7 @@ chk("C20", "static analysis: MIR scan/walk templates, decision tables, loop rela
     "slice is exhausted; from_bytes_until_nul / from_bytes_with_nul are tables (Ok exactly when the first nul is the last "
     "byte, payload = that CStr); to_bytes_with_nul is the walk to the first terminator returning i+1 bytes, to_bytes is the view "
     "w[..len-1] of that slice in any spelling (a panicking path must contradict `non-empty, last byte 0`), to_str is the checked "
-    "from_utf8 of that view with Ok/Err passed on. Concat/join: the length functions are the terms "
+    "from_utf8 of that view with Ok/Err passed on, and string::from_utf8 is core::str::from_utf8 with its outcome passed on. Concat/join: the length functions are the terms "
     "sum(len(piece_i)) [+ sep.len()*(n-1), 0 if empty]; every fill loop copies piece[j] to out[cursor] with one shared "
     "cursor advanced by one and bounds-checked stores; join writes first,(sep,piece)*; __ElemDispatch/__SepArg len agree with "
     "the bytes they produce per kind; ArrayStr::as_str re-validates; in the macro expansions LEN and the bytes are computed "
